@@ -61,7 +61,9 @@ func (sel *Selection) findSlice(segs []*Path) (*Selection, error) {
 			}
 			copy := *p
 			copy.parent = p
-			copy.Path = segs[i]
+			// below the selection reached so far, not below the parsed segments (whose
+			// chain starts at the schema node and carries neither ancestors nor keys)
+			copy.Path = &Path{Parent: p.Path, Meta: segs[i].Meta, Key: segs[i].Key}
 			return &copy, nil
 		} else if meta.IsList(segs[i].Meta) || meta.IsContainer(segs[i].Meta) {
 			r := &ChildRequest{
